@@ -66,6 +66,16 @@ def run(ck):
         tasks.append({"scen": "poll", "params": p, "strat": strat, "gran": "line" if i % 5 == 0 else "sync",
                       "facts": {"cancel_fn": p["cancel_fn"], "poll_raise": p["poll_raise"]}})
     ck.run_and_validate(tasks, TRACE)
+    # directed two-preemption sweeps (line granularity) around registration, the descriptor snapshot and cancel
+    from .. import core as _core
+    pp = {"flavour": "manual", "jobs": [{"S": 0, "D": 200, "fail": False, "y": 2, "K": 200, "C": True},
+                                        {"S": 100, "D": 100, "fail": False, "y": 1, "K": None, "C": True}],
+          "cancel_fn": "false", "poll_raise": 0, "poll_dur": 0, "notify": [200], "interval": 500, "horizon": 2500}
+    swept = _core.phase_tasks("poll", pp, [("env1", "can1"), ("can1", "env1"), ("PollExecutor-q", "can1"),
+                                            ("can1", "PollExecutor-q"), ("env1", "PollExecutor-q"), ("PollExecutor-q", "env1"),
+                                            ("env2", "PollExecutor-q"), ("notif0", "PollExecutor-q")],
+                              range(2, 60, 5 if quick else 1), range(2, 40, 6 if quick else 1), facts={"cancel_fn": "false"})
+    ck.run_and_validate(swept, TRACE, nontrivial=lambda t, r: True)
     ck.assumptions += [
         "'must be shown' is demanded of futures whose delegate completion (incl. callbacks) preceded the previous poll call's return; promptness covers the rest",
         "virtual time; SLACK = 3 ticks",
